@@ -27,7 +27,7 @@ theorem invK (hd : c.dry = false) (hr : Reach c s) : InvK s := by
 theorem invS_step (hd : c.dry = false) (hs : step c s a = some s') (ih : InvS s) : InvS s' := by
   simp only [InvS] at *
   intro j
-  have hr := isReady_label c s
+  have hr := isReady_label_ob c s
   step_cases a hs <;> step_close
 
 theorem invS (hd : c.dry = false) (hr : Reach c s) : InvS s := by
@@ -38,7 +38,7 @@ theorem invS (hd : c.dry = false) (hr : Reach c s) : InvS s := by
 theorem invD_step (hn : NoRep c) (hs : step c s a = some s') (ih : InvD s) : InvD s' := by
   simp only [InvD] at *
   intro j
-  have hr := isReady_label c s
+  have hr := isReady_label_ob c s
   step_cases a hs <;> (try simp only [afterPC_norep (hn _)] at *) <;> step_close
 
 theorem invD (hn : NoRep c) (hr : Reach c s) : InvD s := by
